@@ -27,6 +27,7 @@ def tasks(tier, seed=0):
     # has that expression's meaning - the same obligation as under C07, which adds the annotation clauses
     out.append(task("vf.contracts.annos", "ob_algo_simplify", "annos.algorithm.simplify/meaning+clauses", ["C07", "C09"], tier=tier))
     out.append(task("vf.contracts.annos", "ob_algo_simplify", "annos.algorithm.simplify[conjunction]/meaning+clauses", ["C07", "C09"], tier=tier, shape="and"))
+    out.append(task(M, "ob_hash_collision", "z3rt.abstraction-cache/terms-with-colliding-z3-hashes", ["C09", "C26"], replay="vf.contracts.z3rt:replay", tier=tier))
     out.append(task(M, "ob_symbol_history", "z3rt.symbol-leaf/sort-independent-of-history", ["C09", "C05"], replay="vf.contracts.z3rt:replay", tier=tier))
     out.append(task(M, "ob_totality", "z3rt.totality/all-claripy-operators", ["C09"], replay="vf.contracts.z3rt:replay", tier=tier))
     out.append(task("vf.contracts.frontend", "ob_simplify", "frontend.ConstrainedFrontend.simplify/models-unchanged", ["C09", "C07"], tier=tier))
